@@ -77,6 +77,7 @@ def pstep (dial : Nat → Bool) (rm : Nat) (scripts : List (List Pick)) (g : PG)
         { conn := conn', conns := setRq g.conns k { tb := none, invoked := true, done := true },
           outs := .closed k conn' :: g.outs }
     | none => { g with outs := .bad :: g.outs }
+  | _ => { g with outs := .bad :: g.outs }
 
 def prun (dial : Nat → Bool) (rm : Nat) (scripts : List (List Pick)) : PG → List Step → PG
   | g, [] => g
